@@ -223,6 +223,46 @@ fn nested_programs() -> Vec<(&'static str, Program, Vec<Vec<Val>>)> {
         }
     }
     out.push(("enum-in-struct-in-array", p, ins));
+    // a match whose clauses overlap: an input matched by three clauses takes the FIRST one - its value,
+    // its assignments and its failures only
+    {
+        let body = vec![
+            let_mut("acc", var("y")),
+            let_(
+                "r",
+                match_(
+                    tup(vec![var("x"), var("y")]),
+                    vec![
+                        (Pat::Tup(vec![Pat::Int(0, Some(IntTy::U8)), pvar("_")]), block(vec![assign("acc", vec![], bin(BinOp::BitXor, var("acc"), u8l(1))), expr_stmt(u8l(1))])),
+                        (Pat::Tup(vec![pvar("_"), Pat::Int(0, Some(IntTy::U8))]), block(vec![assign("acc", vec![], bin(BinOp::BitXor, var("acc"), u8l(2))), expr_stmt(u8l(2))])),
+                        (Pat::Tup(vec![Pat::Range(0, 9, true, Some(IntTy::U8)), pvar("_")]), block(vec![assign("acc", vec![], bin(BinOp::BitXor, var("acc"), u8l(4))), expr_stmt(bin(BinOp::Div, u8l(100), var("y")))])),
+                        (pvar("_"), block(vec![assign("acc", vec![], bin(BinOp::BitXor, var("acc"), u8l(8))), expr_stmt(bin(BinOp::Add, var("x"), u8l(250)))])),
+                    ],
+                ),
+            ),
+            let_(
+                "q",
+                match_(
+                    var("x"),
+                    vec![
+                        (Pat::Range(0, 9, true, Some(IntTy::U8)), u8l(10)),
+                        (Pat::Range(5, 20, true, Some(IntTy::U8)), u8l(20)),
+                        (Pat::Range(0, 255, true, Some(IntTy::U8)), u8l(30)),
+                        (pvar("w"), var("w")),
+                    ],
+                ),
+            ),
+            expr_stmt(tup(vec![var("r"), var("q"), var("acc")])),
+        ];
+        let p = Program::simple_main(vec![("x", u8t.clone()), ("y", u8t.clone())], Ty::Tup(vec![u8t.clone(), u8t.clone(), u8t.clone()]), body);
+        let mut ins = vec![];
+        for x in [0u8, 1, 5, 7, 9, 10, 20, 21, 255] {
+            for y in [0u8, 1, 3, 255] {
+                ins.push(vec![Val::u8(x), Val::u8(y)]);
+            }
+        }
+        out.push(("match-with-overlapping-clauses", p, ins));
+    }
     // loops over arrays whose elements have no bits: one iteration per element
     {
         let unit = || tup(vec![]);
@@ -236,6 +276,26 @@ fn nested_programs() -> Vec<(&'static str, Program, Vec<Vec<Val>>)> {
         let p = Program::simple_main(vec![("a", u8t.clone()), ("pad", Ty::Bool)], u8t.clone(), body);
         let ins = [0u8, 5, 250, 255].iter().map(|v| vec![Val::u8(*v), Val::Bool(false)]).collect();
         out.push(("loops-over-zero-width-elements", p, ins));
+        // reads and writes at input-dependent indices of arrays whose elements have no bits: in bounds
+        // nothing happens, out of bounds is still out of bounds; a later division must still be seen
+        let body = vec![
+            let_mut("units", ex(ExprKind::ArrRep(Box::new(unit()), 3))),
+            let_("z", index(var("units"), var("k"))),
+            assign("units", vec![Acc::Index(var("j"))], var("z")),
+            let_("rows", ex(ExprKind::ArrRep(Box::new(ex(ExprKind::ArrRep(Box::new(var("a")), 0))), 2))),
+            let_("r", index(var("rows"), var("j"))),
+            expr_stmt(bin(BinOp::Div, u8l(100), var("a"))),
+        ];
+        let p = Program::simple_main(vec![("a", u8t.clone()), ("k", Ty::usize()), ("j", Ty::usize())], u8t.clone(), body);
+        let mut ins = vec![];
+        for a in [0u8, 7] {
+            for k in [0u64, 1, 2, 3, 4, u32::MAX as u64] {
+                for j in [0u64, 1, 2, 3] {
+                    ins.push(vec![Val::u8(a), Val::Int(k as i128, IntTy::Usize), Val::Int(j as i128, IntTy::Usize)]);
+                }
+            }
+        }
+        out.push(("index-into-arrays-of-zero-width-elements", p, ins));
     }
     out
 }
